@@ -246,11 +246,38 @@ def _canon_term(term, free_names):
     dead = [(v, s) for v, s in bound if v not in used]
     if dead:
         raise Unsupported("summation over an index that no factor carries (a size factor): not modelled")
-    # bound variables may only be relabelled within their size symbol
+    # bound variables may only be relabelled within their size symbol; within a symbol they are first separated by colour refinement
+    # (a variable's colour = its symbol and, iteratively, the multiset of (atom, position, colours of the atom's other indices) it occurs in);
+    # only variables that stay indistinguishable are permuted by brute force
+    bset = {v for v, _ in bound}
+    color = {v: ("s", s_) for v, s_ in bound}
+
+    def col(v):
+        return color[v] if v in bset else ("free", free_names.get(v, ("?", v)))
+    for _ in range(len(bset) + 1):
+        new = {}
+        for v in bset:
+            occ = []
+            for n, vs, cj in atoms:
+                for pos, w in enumerate(vs):
+                    if w == v:
+                        sym_pos = pos
+                        if n in SYMMETRIC and pos in SYMMETRIC[n]:
+                            sym_pos = min(SYMMETRIC[n])       # positions of a symmetric pair are interchangeable
+                        occ.append((n, sym_pos, cj and n not in REAL, tuple(sorted(repr(col(u)) for k, u in enumerate(vs) if k != pos))))
+            new[v] = (color[v], tuple(sorted(repr(o) for o in occ)))
+        # compress colours to small integers to keep them comparable and short
+        ranks = {c: i for i, c in enumerate(sorted(set(new.values()), key=repr))}
+        newc = {v: ("c", ranks[new[v]]) for v in bset}
+        if len(set(newc.values())) == len(set(color.values())):
+            color = newc
+            break
+        color = newc
     classes = {}
-    for v, s_ in sorted(bound):
-        classes.setdefault(s_, []).append(v)
-    syms = sorted(classes)
+    for v in sorted(bset, key=lambda u: (repr(color[u]), u)):
+        classes.setdefault(color[v], []).append(v)
+    sym_of = dict(bound)
+    syms = sorted(classes, key=repr)
     count = 1
     for s_ in syms:
         for k in range(2, len(classes[s_]) + 1):
@@ -262,7 +289,7 @@ def _canon_term(term, free_names):
         m = {}
         for s_, perm in zip(syms, perms):
             for i, v in enumerate(classes[s_]):
-                m[v] = ("b", s_, perm[i])
+                m[v] = ("b", sym_of[v], s_[1], perm[i])
         lab = []
         for n, vs, cj in atoms:
             t = [m.get(v, free_names.get(v, ("?", v))) for v in vs]
@@ -352,6 +379,7 @@ class Interp:
         self.sizes = dict(sizes)              # symbol -> traced extent
         self.intercept = intercept or {}
         self.prim_hook = prim_hook or {}
+        self.scan_first_only = False          # True: interpret only the first iteration of a scan (loop-body obligations)
         self.seen = {}
 
     def run(self, jaxpr, consts, args):
@@ -383,13 +411,31 @@ class Interp:
             if r is not None:
                 return r
         if p == "scan":
-            # only the FIRST iteration of a scan is interpreted (its body is what the obligations are about); the callers stop it with a hook
             consts, carry, xs = [list(t) for t in P["ft_in"].update(ins).unpack()]       # JAX 0.11: flat inputs = consts + carry + xs
-            if xs:
+            if any(isinstance(x, (TT, Stack, Frac)) for x in xs):
                 raise Unsupported("scan over symbolic per-iteration inputs")
             cj = P["jaxpr"]
-            out = self.run(cj.jaxpr, cj.consts, consts + carry)
-            raise Unsupported("scan body ended without being stopped by the obligation's hook")
+            L = int(P["length"])
+            if self.scan_first_only:
+                # obligations about a loop BODY stop the first iteration with a hook
+                self.run(cj.jaxpr, cj.consts, consts + carry)
+                raise Unsupported("scan body ended without being stopped by the obligation's hook")
+            if L > 64:
+                raise Unsupported("scan longer than 64 iterations")
+            ys_all = []
+            order = range(L - 1, -1, -1) if P.get("reverse") else range(L)
+            for i in order:
+                xi = [np.asarray(x)[i] for x in xs]
+                out = self.run(cj.jaxpr, cj.consts, consts + carry + xi)
+                carry, ys = [list(t) for t in P["ft_out"].update(out).unpack()]
+                ys_all.append(ys)
+            if P.get("reverse"):
+                ys_all = ys_all[::-1]
+            stacked = []
+            for k in range(len(ys_all[0]) if ys_all else 0):
+                col = [y[k] for y in ys_all]
+                stacked.append(Stack(col) if any(isinstance(c, (TT, Stack)) for c in col) else np.stack([np.asarray(c) for c in col]))
+            return list(carry) + stacked
         if p in ("jit", "pjit", "closed_call", "core_call", "custom_jvp_call", "custom_vjp_call", "remat", "checkpoint"):
             nm = P.get("name", "")
             if nm in self.intercept:
